@@ -289,7 +289,12 @@ def simple_jobs(src, tagp, clang=True):
     return jobs
 
 
+def fraction_attr(kind, op, tag, diag):
+    return ["C17"] if kind == "FrFromFloat" else ["C16"]
+
+
 FAMILIES = {
+    "fraction": dict(jobs=simple_jobs("h_fraction.cpp", "fraction"), attr=fraction_attr),
     "sqrt": dict(jobs=simple_jobs("h_sqrt.cpp", "sqrt"), attr=lambda kind, op, tag, diag: ["C19"]),
     "bits": dict(jobs=bits_jobs, attr=lambda kind, op, tag, diag: ["C18"]),
     "elastic": dict(jobs=elastic_jobs, attr=elastic_attr),
@@ -402,6 +407,28 @@ CHECKS = {
                "narrowed operand; recorded deviations must equal the as-coded model to count as the known finding.",
                "comparisons of elastic types are judged under C03; elastic_scaled_integer arithmetic under C01/C02 (values) "
                "with elastic reps; storage wider than 128 bits (wide_integer narrowest) not exercised here"),
+    "C16": chk(["fraction"], [],
+               "events = +,-,*,/ , unary -/+, the six comparisons, reduce, canonical, std::hash on pairs (n,d)/(k*n,k*d), and "
+               "explicit conversion to float/double on cnl::fraction<T>, T = int8..int64; unary operations over every 8-bit "
+               "fraction (quick: every 11th), binary over a strided product of TLC boundary components with both denominator "
+               "signs (thorough: all 4-bit-magnitude pairs); non-trivial = a negative denominator, a common factor, equal "
+               "fractions with different components",
+               "TLA+ spec (SemFraction: cross-multiplication over unbounded integers, Euclid's gcd, rational "
+               "round-to-nearest-even with a sticky bit) evaluated by TLC on every recorded event (trace validation)",
+               "results must denote the exact rational, comparisons the rational order whatever the denominator signs, "
+               "reduce/canonical preserve the value with gcd 1 (and d > 0), equal fractions hash equally, conversion to "
+               "floating point is RNE(n)/RNE(d) correctly rounded.",
+               "arithmetic is judged only where all cross products fit the promoted component type (the property's domain)"),
+    "C17": chk(["fraction"], [],
+               "events = cnl::make_fraction<T>(x) for float/double/long double x within the numerator range of T "
+               "(int8..int64): exponent x coarse-mantissa lattice, small integers and k/8, k/10, k/3, -k/7, values near the "
+               "numerator limit, seeded random mantissas; 2 s watchdog per call",
+               "TLA+ spec (SemFraction.JudgeFrFromFloat: sign, positive denominator, component ranges, exactness, adjacency "
+               "and the max(1,|x|)*2^(4-D) bound by cross-multiplying unbounded integers with the exactly logged float) "
+               "evaluated by TLC on every recorded call (trace validation)",
+               "termination (no watchdog event), d > 0, sign, range, exact-or-close as the property states.",
+               "reading decision: 'equals the input' is accepted exactly or as a floating-point value of the input's format "
+               "(the library's own exit test); the as-coded mediant search is not yet modelled"),
     "C18": chk(["bits"], [],
                "events = one value of an unsigned (countl_zero ... log2p1, rotl/rotr for every count 0..2W) or signed "
                "(countl_rsb, countl_rb, countr_used, used_digits, leading_bits, trailing_bits) integer type; 8-bit and "
@@ -522,8 +549,12 @@ def run_check(prop, tier, replay, t0):
 
 
 def dec(v):
+    if isinstance(v, dict) and "m" in v and "e" in v:
+        return "%s%d*2^%d" % ("-" if v.get("n") else "", dec(v["m"]), v["e"]) if v.get("c", "fin") == "fin" else v.get("c")
     if not isinstance(v, list):
         return v
+    if v and isinstance(v[0], list):
+        return [dec(x) for x in v]
     m = 0
     for x in reversed(v[1:]):
         m = (m << 15) | x
@@ -540,7 +571,7 @@ def brief(b):
     for k in ("lt", "rt"):
         if k in i and isinstance(i[k], dict) and "w" in i[k]:
             parts.append("%s=%s%d" % (k, "i" if i[k].get("s") else "u", i[k]["w"]))
-    for k in ("l", "r", "res"):
+    for k in ("l", "r", "x", "res"):
         if k in e:
             parts.append("%s=%s" % (k, dec(e[k])))
     if "out" in e:
